@@ -4,3 +4,4 @@ set -uo pipefail
 . /verif/scripts/env.sh
 cd /repo
 $GO test -mod=mod -json -vet=off -count=1 -timeout 25m ./...
+rm -f /repo/test/e2e/scale/kwok_scale_test.json  # artefact the e2e scale test writes into the tree
